@@ -660,27 +660,25 @@ theorem special_names (idna : Idna) (input : Bytes) (h : isSpecialScheme input =
   simp only [Bool.or_eq_true, beq_iff_eq] at h
   rcases h with ((((h | h) | h) | h) | h) | h <;> subst h <;> with_unfolding_all rfl
 
-/-- the value as `canonicalize_protocol` reads it: a single trailing ':' dropped ("process protocol for init") -/
-def protocolInput (v : Bytes) : Bytes := if v.getLast? == some 0x3A then v.dropLast else v
-
 /-- **`canonicalize_protocol`**: the two shortcuts (a special scheme's name; letters, digits, '+', '-', '.' behind a letter,
     lower-cased when a capital occurs) give the scheme of the URL the Standard parses, `value ++ "://dummy.test"`; the rest
     takes the slow route `hslow`, which is that parse (`protocolSlow_eq`) -/
-theorem protocol_eq (idna : Idna) (L : Nat) (v : Bytes) (hne : v ≠ [])
-    (hslow : protocolSlow idna L (protocolInput v) = (Spec.Pattern.protocolUrl idna (protocolInput v)).map (·.scheme)) :
-    canonicalizeProtocol idna L v = (Spec.Pattern.protocolUrl idna (protocolInput v)).map (·.scheme) := by
-  unfold canonicalizeProtocol
+theorem protocol_eq (idna : Idna) (L : Nat) (v : Bytes)
+    (hslow : protocolSlow idna L v = (Spec.Pattern.protocolUrl idna v).map (·.scheme)) :
+    canonicalizeProtocol idna L v = Spec.Pattern.canonProtocol idna v := by
+  unfold canonicalizeProtocol Spec.Pattern.canonProtocol
+  by_cases hne : v = []
+  · subst hne; rfl
   have he : v.isEmpty = false := FS.isEmpty_false_of_ne hne
   simp only [he, Bool.false_eq_true, ↓reduceIte]
-  rw [show (if (v.getLast? == some 0x3A) = true then v.dropLast else v) = protocolInput v from rfl]
-  generalize protocolInput v = input at hslow ⊢
+  generalize v = input at hslow hne ⊢
   by_cases hsp : Model.isSpecial input = true
   · simp only [hsp, ↓reduceIte]
     rw [Proto.isSpecial_eq] at hsp
     exact (special_names idna input hsp).symm
   · simp only [hsp, Bool.false_eq_true, ↓reduceIte]
     cases input with
-    | nil => exact hslow
+    | nil => exact absurd rfl hne
     | cons c0 rest =>
       simp only
       by_cases hbad : (!hasFlag 0 c0 || c0 == 0x2B || c0 == 0x2D || c0 == 0x2E || isAsciiDigit c0) = true
